@@ -22,7 +22,10 @@ argv literals) + correspondence of the model against
   marker-lookup    (c10_marker.py) known_hosts files with @revoked / @cert-authority lines, trailing comments, blank and
                    comment lines: SSHKnownHosts.lookup vs lookup_lines reader_as_written; the same files run through
                    hostkey-order (all three transports) and hostkey-loopback (real paramiko / asyncssh) — a marker line is
-                   never a trust entry.
+                   never a trust entry,
+  pattern files    (c10_pattern.py) known_hosts lines with * ? wildcards and !negated patterns in comma lists: a host a line EXCLUDES
+                   has no entry on it; same two suites (oracle-only on the matching, model-compared on the ordering),
+  retries          (c10_hist.py NOCLOSE_KINDS) open() again on one object WITHOUT close() after a failed / rejected / successful open.
 The property itself is decided on the implementation's observations by an oracle that does not
 use the model (independent known_hosts reader; Python getopt with OpenSSH's option string)."""
 import asyncio
@@ -162,13 +165,15 @@ def gen_malformed_known_hosts(rng, keys, skey_name, port):
 def spec_entry_keys(text, host, port):
     """Independent reading of a known_hosts file (sshd(8), SSH_KNOWN_HOSTS FILE FORMAT): the set of
     base64 keys on lines that name `host` (plain or in a comma list, hashed, `[host]:port`, or by
-    a * ? pattern).  Deliberately generous: anything a reasonable client could take as an entry for
-    the host is in the set (text after the key is a comment), so `key not in set` really means missing-or-different.
+    a * ? pattern) and do not EXCLUDE it by a negated pattern (`!host`, `!*.dom`: a host matched by a negated pattern of a
+    line is not matched by that line whatever its other patterns; a line of negations only matches nobody).  Deliberately
+    generous otherwise: anything a reasonable client could take as an entry for the host is in the set (text after the key
+    is a comment; a wildcard counts), so `key not in set` really means missing-or-different.
     Lines with a marker (@revoked, @cert-authority, anything starting with @) are NOT entries."""
     import re
 
     def wild(pat, name):      # only * and ? are wildcards in known_hosts patterns ([ ] are literal: "[host]:port")
-        rx = "".join(".*" if ch == "*" else "." if ch == "?" else re.escape(ch) for ch in pat.lstrip("!"))
+        rx = "".join(".*" if ch == "*" else "." if ch == "?" else re.escape(ch) for ch in pat)
         return re.fullmatch(rx, name) is not None
 
     out = set()
@@ -184,9 +189,13 @@ def spec_entry_keys(text, host, port):
             continue
         if len(f) < 3:
             continue
-        hit = False
+        hit = excluded = False
         for pat in f[0].split(","):
-            if pat.startswith("|1|"):
+            if pat.startswith("!"):
+                # a NEGATED pattern: a host it matches is not matched by this line, whatever the other patterns of the line say
+                if any(wild(pat[1:], n) for n in names):
+                    excluded = True
+            elif pat.startswith("|1|"):
                 parts = pat.split("|")
                 if len(parts) == 4:
                     try:
@@ -197,7 +206,7 @@ def spec_entry_keys(text, host, port):
                         hit = True
             elif any(wild(pat, n) for n in names):
                 hit = True
-        if hit:
+        if hit and not excluded:
             out.add(f[2])
     return out
 
@@ -264,12 +273,19 @@ def make_paramiko_stub():
     class Session:
         def __init__(self, sock):
             self.authed = False
+            self.active = False
             self.disabled_algorithms = {}
 
         def start_client(self):
             ev("KeyExchange")
             if not Cur.sc["handshake_ok"]:
                 raise OSError("handshake")
+            self.active = True
+
+        def is_active(self):
+            # paramiko.Transport.is_active: true from a completed negotiation until close() — also after a FAILED host key
+            # verification or authentication, as long as nobody closed the session
+            return self.active
 
         def get_remote_server_key(self):
             ev("CheckValue")
@@ -294,7 +310,7 @@ def make_paramiko_stub():
             return _AChan()
 
         def close(self):
-            pass
+            self.active = False
 
     return Session
 
@@ -892,6 +908,43 @@ def run(rep):
             why = oracle_trace(sc, trace, key_bad)
             if why:
                 order_fail.append((len(order_cases) - 1, "%s [known_hosts kind %s, %s entries]" % (why, kind, fmt)))
+    # wildcard / negated patterns in comma lists (c10_pattern): every kind of file over all three transports; a host that a line
+    # EXCLUDES (`*.dom,!host KEY`) has no entry on that line — nothing may be offered to a server presenting KEY
+    from . import c10_pattern as PT
+    pat_stats = {"files": 0, "key_missing_or_different": 0, "listed": 0, "scrapli_lookup_found": 0}
+    for kind in PT.plan_files(rng, thorough):
+        lay = PT.gen_layout(rng, kind, "A", ["B", "R"], HOST, OTHER_HOSTS)
+        text = PT.render(rng, lay, mkeys)
+        khfile = write_kh(text)
+        entry = scrapli_entry(khfile)
+        key_bad = kA not in spec_entry_keys(text, HOST, 22)
+        pat_stats["files"] += 1
+        pat_stats["key_missing_or_different" if key_bad else "listed"] += 1
+        pat_stats["scrapli_lookup_found"] += 1 if isinstance(entry, str) else 0
+        d = dist["order"]
+        d["pattern_" + kind] = d.get("pattern_" + kind, 0) + 1
+        libv = lib_verdict(khfile, HOST, 22, keys.pub["A"][0], kA) or "Untrusted"
+        for lib in LIBS:
+            sc = {"strict": True, "entry": entry, "skey": kA, "libv": libv if lib == "Asyncssh" else "Trusted", "handshake_ok": True,
+                  "has_key": rng.random() < 0.5, "has_pw": True, "has_user": True, "key_ok": rng.random() < 0.5, "pw_ok": rng.random() < 0.7,
+                  "kbd_ok": False}
+            trace, ckw = stubs.run(lib, sc, khfile)
+            rep.case(("order-pattern", lib, kind, sc["has_key"], sc["key_ok"], sc["pw_ok"], text), nontrivial=True)
+            d[lib] = d.get(lib, 0) + 1
+            d["end_" + EVN.get(trace[-1], "?")] = d.get("end_" + EVN.get(trace[-1], "?"), 0) + 1
+            order_cases.append({"suite": "hostkey-order", "lib": lib, "scenario": sc, "known_hosts": text, "format": "pattern",
+                                "relation": "pattern:" + kind, "pattern_layout": lay, "trace": [EVN.get(e, e) for e in trace]})
+            if isinstance(entry, str) and entry.startswith("EXC:"):
+                order_terms.append("(%s, %s, %s)" % (lib, coq_scen(dict(sc, entry=None)), coq_bytes([0])))   # never equal: reported
+            else:
+                order_terms.append("(%s, %s, %s)" % (lib, coq_scen(sc), coq_bytes(trace)))
+            # the verdict the stub asyncssh acts out is the real matcher's for this file, so the oracle applies throughout
+            why = oracle_trace(sc, trace, key_bad)
+            if why:
+                order_fail.append((len(order_cases) - 1, "%s [known_hosts with wildcard / negated patterns, kind %s]" % (why, kind)))
+    rep.coverage["pattern_files"] = dict(pat_stats, kinds=len(PT.KINDS), meaning=(
+        "known_hosts lines whose host field is a comma list of * ? patterns and !negations around 127.0.0.1; key_missing_or_different = "
+        "the presented key is only on lines that exclude the host (or name nobody) per the oracle's reader"))
     stubs.restore()
     bad_mark, log_mark = common.eval_cases(rep.workdir, "cases_c10_marker", MK.HEADER_MARK, mark_terms, "chk", shard=40)
     mark_wall = {"stub_files_and_model_evaluation": round(_tm.time() - t_m0, 1)}
@@ -1069,6 +1122,13 @@ def run(rep):
                          text=MK.render(sys.modules[__name__], rng, lay, fmt, port, keys.pub, sk))
             dist["loopback"]["marker"] = dist["loopback"].get("marker", 0) + 1
         mark_wall["loopback"] = round(_tm.time() - t_m1, 1)
+        # wildcard / negated patterns (c10_pattern) against the real libraries
+        t_p1 = _tm.time()
+        for (lib, kind, sk, method, strict) in PT.plan_loopback(rng, thorough):
+            lay = PT.gen_layout(rng, kind, sk, [k for k in keys.pub if k != sk], HOST, OTHER_HOSTS)
+            one_loopback(lib, sk, True, strict, "pattern:" + kind, "pattern", method, text=PT.render(rng, lay, keys.pub))
+            dist["loopback"]["pattern"] = dist["loopback"].get("pattern", 0) + 1
+        rep.coverage["pattern_files"]["loopback_wall_s"] = round(_tm.time() - t_p1, 1)
         for (lib, dial, rel, nameform, carrier, cform, method, sk, strict) in AL.plan(rng, alias_names, thorough):
             lay = AL.gen_layout(rng, keys.pub, sk, dial, rel, nameform, carrier, cform, alias_names)
             one_loopback(lib, sk, True, strict, rel, nameform, method, dial=dial, alias=(lay, nameform, carrier, cform))
@@ -1179,6 +1239,9 @@ def run(rep):
                 "marker files: (kind of file: presented key @revoked / @cert-authority for the host, for another host, for *, plain entry of another key "
                 "before / after, rotation with the right key plain, trailing comments; entry form plain / comma / hashed / [host]:port; blank and comment "
                 "lines; transport; credentials) — every kind x form over the stubs, every kind x real library on loopback; "
+                "pattern files: (kind of file: wildcard-only / negation elsewhere / host EXCLUDED by !host or a negated pattern, position of the negation, "
+                "plain lines of another / the right key, noise lines of other hosts' patterns; transport; credentials) — every kind over the stubs and the real "
+                "paramiko, a rotating half (thorough: all) over the real asyncssh; retries: (kind of no-close history, lib, credentials, format) over the stubs; "
                 "non-trivial = strict mode in effect (and the handshake succeeds); distinct = the full scenario tuple")
 
     # ---------------------------------------------------------------------------------------------
@@ -1560,7 +1623,23 @@ MANIFEST = {
             "comments on plain and marker lines, blank / whitespace / comment / commented-out-entry lines around — in plain, comma-listed, |1| hashed "
             "and [host]:port form, over the stub libraries for paramiko, ssh2 and asyncssh (exact traces; the verdict the stub asyncssh acts out is the "
             "real matcher's for the file) and over the real paramiko and asyncssh clients against the recording servers (ed25519 and RSA host keys, "
-            "password / key / both). The oracle's reader (spec_entry_keys) ignores every line that starts with @.",
+            "password / key / both). The oracle's reader (spec_entry_keys) ignores every line that starts with @."
+            " WILDCARD and NEGATED patterns (c10_pattern.py): the specification (sshd(8)) — the host field is a comma list of patterns, * and ? are "
+            "wildcards, and a host matched by a `!`-negated pattern of a line is NOT matched by that line whatever its other patterns (a line of "
+            "negations only matches nobody); so in strict mode nothing leaves for a host whose presented key sits only on lines that exclude it. "
+            "Observed: 16 kinds of file around 127.0.0.1 — covered by * / ? patterns only (right / another key; generous oracle: listed, a literal "
+            "reader refusing is allowed), wildcard + a negation of ANOTHER host, EXCLUDED by `!host` or by a negated pattern (`!*.0.0.1`, `!12*`) "
+            "with the negation first / last / shuffled, among other hosts' names, with negations of both sorts, negation-only lines, excluded + a "
+            "plain line of another key before / after, two excluding lines, excluded + plainly listed with the presented key (must open), noise "
+            "lines of other hosts' patterns carrying the presented key — over the stub libraries for paramiko, ssh2 and asyncssh (exact traces vs "
+            "open_trace, the stub asyncssh acting out the real matcher's verdict) and over the real paramiko and asyncssh clients against the "
+            "recording servers; the oracle's reader (spec_entry_keys) implements the negation rule. "
+            "RETRIES without close() (c10_hist NOCLOSE_KINDS, stub libraries, all three transports, exact traces): open() is called again on the "
+            "SAME object with no close() after an open that failed at the host key verification (another key / host absent, twice, three times, "
+            "entry edited away), after one the server rejected, and after one that succeeded while another server answers the retry — every open "
+            "must verify the key presented to it; in Coq these are histories with no HClose step, covered by C10_history_* (run_history ignores "
+            "HClose, the theorems quantify over every list of steps). The stub paramiko session answers is_active() like the library (true from a "
+            "completed negotiation until close()).",
     "note": "Section variables / hypotheses: `lookup` (SSHKnownHosts parsing and lookup, owned by KnownHosts.v / C16) and `lib_verdict` (asyncssh's own "
             "known_hosts matcher) with hypothesis lib_agrees: when scrapli's lookup finds an entry, asyncssh trusts at most that entry's key — "
             "tested on every generated single-entry file, not proved; for two-line entries it is false and the property is then only observed. "
@@ -1598,7 +1677,17 @@ MANIFEST = {
             "entry form, so that the pick among several (literal ids: the last line; |1| ids: the first) is uniform; host-name matching itself stays "
             "C16's (KnownHosts.v). A key that is BOTH on a plain line and on an @revoked line for the host (OpenSSH refuses it, scrapli's reader never "
             "sees @revoked lines) is not generated and not covered by the oracle, which only demands the necessary condition above; the histories "
-            "(c10_hist) and the real-ssh rows do not use marker files.",
+            "(c10_hist) and the real-ssh rows do not use marker files. "
+            "Pattern files: host-name matching (wildcards, negation) is NOT in the Coq model — the model takes SSHKnownHosts.lookup's result as its "
+            "input, so on which-line-names-the-host these scenarios are oracle-only (spec_entry_keys on the text); the ordering of open() on them is "
+            "model-compared. Conventions of the oracle: a negated pattern excludes the line when it matches the bare host or its [host]:port "
+            "spelling; the bare * is generated only on lines without a negation (OpenSSH looks a non-default port up as [host]:port, which `*` "
+            "matches and `!host` does not — that corner is left out; the malformed stream still has `!host,*` and only demands that nothing is "
+            "offered). NOT generated: a line that names the host literally AND excludes it by a negation (`127.0.0.1,!127.0.0.? KEY`): the pinned "
+            "reader matches names literally and would take it as an entry although OpenSSH does not — a contradictory line, outside the families; "
+            "pattern files are not used with aliases, the histories or the real ssh binary. "
+            "Retries without close() run over the stub libraries only: with the real paramiko a second open() over the socket and session a failed "
+            "open left behind runs into the 15 s banner timeout (see above), so there is no real-library run of a no-close retry.",
     "technique": "Coq proofs by case analysis over an event-trace model + generated-definition obligations + vm_compute correspondence against stubbed "
                  "and real (loopback) SSH libraries with recording servers",
 }
